@@ -89,6 +89,10 @@ func c14ChildConcur(rounds int) {
 			for n := 0; n < rounds; n++ {
 				ln := 1 + (n*7+g)%200
 				val := strings.Repeat(letter, ln)
+				if n%2 == 0 { // short, never-seen-before values
+					val = fmt.Sprintf("%s%d", letter, n)
+					ln = len(val)
+				}
 				text := "S1F1 W\n<A \"" + val + "\">\n."
 				if n%3 == 0 {
 					text = fmt.Sprintf("S1F1 W\n<A[%d] \"%s\">\n.", ln, val)
@@ -115,6 +119,8 @@ func c14ChildConcur(rounds int) {
 						} else {
 							msgs, err = sml.Parse(text)
 						}
+						// distinct parser INSTANCES used concurrently share nothing either (a process-wide table behind the
+						// parser — an intern map, a pool — written without the right lock kills the process: seeded C14e-2)
 						want, _ := sml.NewParser(sml.WithParserStrictMode(strict)).Parse(text)
 						got, exp := "", ""
 						if err == nil && len(msgs) == 1 {
@@ -151,6 +157,10 @@ func c14ChildConcur(rounds int) {
 }
 
 // c14ConcurrentHelpers runs c14ChildConcur in a child process and judges it.
+// c14ConcurSafe: the child-process concurrency probe found nothing; only then are the in-process concurrency phases
+// run (a fatal "concurrent map writes" there would kill the harness before it can report anything).
+var c14ConcurSafe = true
+
 func c14ConcurrentHelpers(c *Ctx) {
 	exe, err := os.Executable()
 	if err != nil {
@@ -178,10 +188,12 @@ func c14ConcurrentHelpers(c *Ctx) {
 		}
 		if diffs+panics > 0 {
 			replay["first"] = clip(firstS, 1500)
+			c14ConcurSafe = false
 			c.Violate("property", "concurrent-result-differs", fmt.Sprintf("package-level helpers used concurrently: %d results differed from an own parser's, %d calls panicked; first: %s", diffs, panics, clip(firstS, 300)), replay)
 		}
 		return
 	}
+	c14ConcurSafe = false
 	if ctx.Err() != nil {
 		c.Violate("property", "concurrent-use-hung", "concurrent use of the package-level helpers did not finish within 120 s", replay)
 		return
@@ -189,7 +201,7 @@ func c14ConcurrentHelpers(c *Ctx) {
 	se := strings.TrimSpace(errb.String())
 	head, _, _ := strings.Cut(se, "\n")
 	replay["stderr"] = clip(se, 3000)
-	c.Violate("property", "concurrent-use-crashed-the-process", fmt.Sprintf("concurrent use of the package-level helpers killed the process (%v): %s", runErr, clip(head, 200)), replay)
+	c.Violate("property", "concurrent-use-crashed-the-process", fmt.Sprintf("concurrent use of parsers (package-level helpers and distinct instances) killed the process (%v): %s", runErr, clip(head, 200)), replay)
 }
 
 type c14ChildResult struct {
@@ -672,6 +684,10 @@ func c14Positions(c *Ctx) {
 // c14Concurrency: 16 goroutines, each with its own parsers and encoder, over the same inputs;
 // every result must equal the sequential one. (-race in the thorough tier.)
 func c14Concurrency(c *Ctx, inputs []c14Input, seqOut [][]string, _ string) {
+	if !c14ConcurSafe {
+		c.Note("in-process concurrency phases skipped: the child-process probe already reported a concurrency defect")
+		return
+	}
 	var idx []int
 	for i := range inputs {
 		if seqOut[i] != nil && seqOut[i][0] != "" && seqOut[i][1] != "" && len(inputs[i].text) < 2000 {
